@@ -214,6 +214,12 @@ pub fn gen_json(seed: u64, n_valid: u64, out: &crate::gens::Sink) {
             out.push(format!("json.rt {ty} {v}"));
         }
     }
+    // values with very many elements (past 10 000 and past 65 536), one size per kind and run
+    for kind in ["snap-json", "pkg-json", "level-json", "queue-json", "mr-json"] {
+        out.push(format!("case {case}"));
+        case += 1;
+        out.push(format!("big {kind} {}", r.pick(&[10_001u64, 20_000, 70_000])));
+    }
 }
 
 /// E-snap: levels, their packages, and faults (kinds named in the op; applied by `run`)
